@@ -39,7 +39,7 @@ func genC05(t *rapid.T) *C05Case {
 					o.EnvDelim = rapid.SampledFrom([]string{"", ",", "::"}).Draw(t, "envDelim")
 				}
 			}
-			if len(o.Defaults) == 0 && !o.Kind.IsFlag() && rapid.Bool().Draw(t, "moreDefaults") {
+			if len(o.Defaults) == 0 && !o.Kind.IsFlag() && o.Kind != KTri && rapid.Bool().Draw(t, "moreDefaults") {
 				k := 1
 				if o.Kind.IsMulti() {
 					k = rapid.IntRange(1, 3).Draw(t, "ndef")
